@@ -170,12 +170,12 @@ def run(chk, R, tier, seed):
                 st, jd = unit_pair_sub(chk, w, "predefined", s1, s2)
                 cases.append(Case(st, wrap(jd)))
     chk.exhaustive["ordered unit pairs per predefined linear type"] = True
-    n = 1500 if tier == "quick" else 40000
+    n = 4000 if tier == "quick" else 40000
     for _ in range(n):
         st, jd = triple_sub(chk, rng, w, "predefined")
         cases.append(Case(st, wrap(jd)))
     run_cases(chk, R, cases, per_program=60)
-    nw = 30 if tier == "quick" else 800
+    nw = 60 if tier == "quick" else 800
     cases = []
     for wi in range(nw):
         plan, ww = random_plan(rng, noref=False)
